@@ -337,6 +337,14 @@ func (g *Gen) evalSel(ctx *specCtx, x *ESel) Val {
 		}
 	}
 	base := g.evalSpec(ctx, x.X)
+	// pointer to pointer (captured variable holding a pointer): follow it
+	if pb, ok := base.(PtrV); ok {
+		if _, isPP := pb.Elem.Underlying().(*types.Pointer); isPP {
+			if inner, ok := g.specLoad(ctx, pb).(PtrV); ok {
+				base = inner
+			}
+		}
+	}
 	// promoted field of an embedded struct: rewrite x.f as x.Embedded.f
 	if emb := promotedVia(baseStructType(base), x.F); emb != "" {
 		return g.evalSel(ctx, &ESel{X: &ESel{X: x.X, F: emb}, F: x.F})
@@ -468,8 +476,8 @@ func (g *Gen) seqBlock(ctx *specCtx, v Val) (blk, off, l string) {
 
 // nameTerm introduces a constant equal to term (so that it can appear in patterns).
 func (g *Gen) nameTerm(term, sort string) string {
-	if !strings.ContainsAny(term, " (") {
-		return term
+	if !strings.ContainsAny(term, " (") || g.inQuant > 0 {
+		return term // (under a binder the term may mention bound variables: it cannot be named globally)
 	}
 	n := g.fresh("t", sort)
 	g.emit("(assert (= " + n + " " + term + "))")
@@ -542,7 +550,9 @@ func (g *Gen) evalCall(ctx *specCtx, x *ECall) Val {
 		blk, so, l := g.seqBlock(ctx, s)
 		g.nfresh++
 		j := fmt.Sprintf("j!q%d", g.nfresh)
+		g.inQuant++
 		rhs := g.seqAt(ctx, a, "(+ "+off+" (- "+j+" "+so+"))")
+		g.inQuant--
 		f1 := fmt.Sprintf("(forall ((%s Int)) (! (=> (and (<= %s %s) (< %s (+ %s %s))) (= (select %s %s) %s)) :pattern ((select %s %s))))", j, so, j, j, so, l, blk, j, rhs, blk, j)
 		// the same statement indexed from a's side, so that terms over a trigger it too
 		if ablk, ao, _, ok := g.seqBlockOpt(ctx, a); ok && ablk != blk {
@@ -700,6 +710,11 @@ func (g *Gen) evalCall(ctx *specCtx, x *ECall) Val {
 			case RefV:
 				ts = append(ts, y.T)
 				sorts = append(sorts, "Int")
+			case SliceV:
+				// a slice argument stands for its contents: (block, offset, length)
+				blk, so, l := g.seqBlock(ctx, y)
+				ts = append(ts, blk, so, l)
+				sorts = append(sorts, "(Array Int Int)", "Int", "Int")
 			default:
 				g.unsupported("argument of uninterpreted function")
 			}
